@@ -1,5 +1,6 @@
 """Loop cutting at invariants, calls by callee contract, exit hooks."""
 from __future__ import annotations
+import os
 import ast
 import z3
 from .values import *
@@ -47,6 +48,8 @@ class LoopMixin:
             if a_ not in f.locals and b_ in f.locals:
                 f.locals[a_] = f.locals[b_]        # a renamed accumulator: the contract keeps calling it by its old name
         f.locals.update(self.run.ghost)
+        if getattr(self, "_iter_stack", None):
+            f.locals["_iter"] = self._iter_stack[-1]
         f.locals.update(extra)
         return f
 
@@ -196,10 +199,14 @@ class LoopMixin:
         if not hasattr(self, "loop_views"):
             self.loop_views = []
         self.loop_views.append(self._last_view)
+        if not hasattr(self, "_iter_stack"):
+            self._iter_stack = []
+        self._iter_stack.append(it)       # `_iter` in invariants: the sequence this loop runs over, whatever the code calls it
         try:
             return self.cut_for_body(node, frame, spec, header, n, elem)
         finally:
             self.loop_views.pop()
+            self._iter_stack.pop()
 
     def cut_for_body(self, node, frame, spec, header, n, elem):
         run = self.run
@@ -524,10 +531,13 @@ class LoopMixin:
                 exc = VExc(cc.raises[k - 1])
                 for lbl, ex in list(cc.xensures.items()) + list(cc.always.items()):
                     run.assume(V.eval_bool(self, ex, sframe, {"exc": VStr(exc.cls), "result": NONE}))
+                run.calls.append({"name": qual, "outcome": "raise", "value": exc, "args": list(args), "contract": True})
                 raise E.PyExc(exc, f"callee {qual}")
             rt = parse_type(cc.returns) if cc.returns else self.ann_type(fnode.returns, rel)
             result = self.fresh(rt, f"ret@{tag}")
             run.contract_calls.append({"name": qual, "outcome": "return", "value": result, "args": list(args)})
+            # the specification forms about calls (calls_to, raised, returned_in_iter ...) see contract calls like havocked ones
+            run.calls.append({"name": qual, "outcome": "return", "value": result, "args": list(args), "contract": True})
             extra = {"result": result, "exc": NONE}
             for lbl, ex in list(cc.ensures.items()) + list(cc.always.items()):
                 try:
@@ -585,6 +595,24 @@ class LoopMixin:
         try:
             tag = run.fresh_name(f"call:{qual}")
             for p in (cc.modifies or []):
+                if p.endswith("[*]"):
+                    # every object stored in this map may have been modified: their fields are re-freshed (identity kept); the pre-state view keeps
+                    # reading the entry values (old heap / templates), so frame clauses of the callee compare two different states
+                    dref = self.eval(ast.parse(p[:-3], mode="eval").body, sframe)
+                    if not (isinstance(dref, VRef) and dref.kind == "dict"):
+                        raise E.Unsupported(f"callee {qual}: modifies {p} is not a map")
+                    drec = run.rec(dref.oid)
+                    prefix = drec.valsym or drec.sym
+                    if not hasattr(run, "havoc_prefixes"):
+                        run.havoc_prefixes = []
+                    run.havoc_prefixes.append((prefix, tag))
+                    for nm_, oid_ in list(run.sym_oids.items()):
+                        if isinstance(nm_, str) and nm_.startswith(prefix + "[") and nm_.endswith("]") and oid_ in run.heap:
+                            orec = run.heap[oid_]
+                            if isinstance(orec, ObjRec):
+                                orec.fields = {}
+                                orec.sym = f"{nm_}@{tag}"
+                    continue
                 pn = ast.parse(p, mode="eval").body
                 base = self.eval(pn.value, sframe)
                 if isinstance(base, VRef) and base.kind == "obj":
@@ -601,6 +629,7 @@ class LoopMixin:
                     run.assume(V.eval_bool(self, ex, sframe, {"exc": VStr(exc.cls), "result": NONE}))
                 for lbl, ex in cc.always.items():
                     run.assume(V.eval_bool(self, ex, sframe, {"exc": VStr(exc.cls), "result": NONE}))
+                run.calls.append({"name": qual, "outcome": "raise", "value": exc, "args": list(args), "contract": True})
                 raise E.PyExc(exc, f"callee {qual}")
             rt = parse_type(cc.returns) if cc.returns else self.ann_type(fnode.returns, rel)
             result = self.fresh(rt, f"ret@{tag}")
@@ -608,15 +637,20 @@ class LoopMixin:
                     any("result is" in ex_ and "result is not None" != ex_.strip() for ex_ in list(cc.ensures.values()) + list(cc.always.values())):
                 result = self.force(result)      # identity conjuncts (`result is <obj>`) bind the reference: needs the case split now
             run.contract_calls.append({"name": qual, "outcome": "return", "value": result, "args": list(args)})
+            # the specification forms about calls (calls_to, raised, returned_in_iter ...) see contract calls like havocked ones
+            run.calls.append({"name": qual, "outcome": "return", "value": result, "args": list(args), "contract": True})
             extra = {"result": result, "exc": NONE}
             for lbl, ex in list(cc.ensures.items()) + list(cc.always.items()):
                 try:
                     self.assume_clause(V.parse_clause(ex), sframe, extra)
-                except E.PyExc:
+                except E.PyExc as pe_:
+                    if os.environ.get("PYVC_DEBUG"):
+                        print("UNASSUMED", qual, lbl, pe_.exc.cls, pe_.origin)
                     pass      # a callee postcondition that cannot be evaluated here is simply not assumed (weaker, sound)
             if extra["result"] is not result:
                 result = extra["result"]
                 run.contract_calls[-1]["value"] = result
+                run.calls[-1]["value"] = result
             for inst in cc.ghost_instances:
                 # the callee's universally quantified ghosts, instantiated once more with the given expressions over its parameters
                 f_i = E.Frame("<spec>", ci, dict(sframe.locals), None, "callee-spec")
